@@ -125,6 +125,7 @@ void World::exec_track_op(const Step& s)
             model.issued_tracks.insert(id);
             e.track = id;
             e.fields = {"*"};
+            last_written[id] = snap;
             probes.hit("create_track_ok");
             if (check(CK_ROUNDTRIP) && s.fault.kind == FK_NONE)
                 check_roundtrip(snap, *t, "create_track", true);
@@ -156,6 +157,7 @@ void World::exec_track_op(const Step& s)
         {
             e.fields = {"*"};
             unanalysed.erase(slot.id);
+            last_written[slot.id] = snap;
             probes.hit("update_ok");
             if (check(CK_ROUNDTRIP) && s.fault.kind == FK_NONE)
                 check_roundtrip(snap, *slot.h, "update", false);
@@ -899,6 +901,7 @@ void World::exec_env_op(const Step& s)
 void World::exec_step(const Step& s)
 {
     last_call = LastCall{};
+    last_written.clear();
     op_counts[s.op]++;
     log.str(s.op);
     gate_log.str(s.op);
